@@ -8,6 +8,7 @@ import (
 	"hash"
 	"html/template"
 	"net/url"
+	"sync"
 	"time"
 
 	"github.com/hashicorp/go-retryablehttp"
@@ -17,6 +18,12 @@ import (
 
 	"github.com/ory/fosite/i18n"
 )
+
+// defaultJWKSFetcherStrategy lazily creates the JWKS fetcher shared by all configurations that did not set one.
+// It is created at most once, so that configuration getters stay free of writes and are safe for concurrent use.
+var defaultJWKSFetcherStrategy = sync.OnceValue(func() JWKSFetcherStrategy {
+	return NewDefaultJWKSFetcherStrategy()
+})
 
 const (
 	defaultPARPrefix                 = "urn:ietf:params:oauth:request_uri:"
@@ -284,7 +291,7 @@ func (c *Config) GetHTTPClient(ctx context.Context) *retryablehttp.Client {
 
 func (c *Config) GetSecretsHasher(ctx context.Context) Hasher {
 	if c.ClientSecretsHasher == nil {
-		c.ClientSecretsHasher = &BCrypt{Config: c}
+		return &BCrypt{Config: c}
 	}
 	return c.ClientSecretsHasher
 }
@@ -368,7 +375,7 @@ func (c *Config) GetAllowedPrompts(_ context.Context) []string {
 // GetScopeStrategy returns the scope strategy to be used. Defaults to glob scope strategy.
 func (c *Config) GetScopeStrategy(_ context.Context) ScopeStrategy {
 	if c.ScopeStrategy == nil {
-		c.ScopeStrategy = WildcardScopeStrategy
+		return WildcardScopeStrategy
 	}
 	return c.ScopeStrategy
 }
@@ -376,7 +383,7 @@ func (c *Config) GetScopeStrategy(_ context.Context) ScopeStrategy {
 // GetAudienceStrategy returns the scope strategy to be used. Defaults to glob scope strategy.
 func (c *Config) GetAudienceStrategy(_ context.Context) AudienceMatchingStrategy {
 	if c.AudienceMatchingStrategy == nil {
-		c.AudienceMatchingStrategy = DefaultAudienceMatchingStrategy
+		return DefaultAudienceMatchingStrategy
 	}
 	return c.AudienceMatchingStrategy
 }
@@ -442,7 +449,7 @@ func (c *Config) GetBCryptCost(_ context.Context) int {
 // GetJWKSFetcherStrategy returns the JWKSFetcherStrategy.
 func (c *Config) GetJWKSFetcherStrategy(_ context.Context) JWKSFetcherStrategy {
 	if c.JWKSFetcherStrategy == nil {
-		c.JWKSFetcherStrategy = NewDefaultJWKSFetcherStrategy()
+		return defaultJWKSFetcherStrategy()
 	}
 	return c.JWKSFetcherStrategy
 }
